@@ -131,7 +131,7 @@ var wireSpecs = []wireSpec{
 		{"number", []string{"call " + tokVal + "(p1.Degree)"}, "the interval number is not the written number"},
 		{"mark", []string{"call input/ast.AccidentalValue(p1.Accidental)"}, "the written accidental is not part of the interval"},
 	}},
-	{"astconv", "(*ASTConverter).Convert", []wireFact{
+	{"astconv", "ASTConverter.Convert", []wireFact{
 		{"meta", []string{"store var<input.Instance>.Meta <- astconv.MetaConverter.Convert(p0.metaConverter,"}, "the metadata block is not kept in the instance (txt/lic/mrk are lost)"},
 		{"values", []string{"store var<input.Instance>.Values <- astconv.ValuesConverter.Convert(p0.valuesConverter,"}, "the durations are not stored in the instance"},
 		{"chord", []string{"store var<input.Instance>.Chord <- astconv.ChordConverter.Convert(p0.chordConverter,"}, "the converted chord is not stored in the instance"},
@@ -193,8 +193,8 @@ var wireSpecs = []wireSpec{
 	{"op", "DiatonicChorderImpl.Triads", []wireFact{{"names", []string{"call op.DiatonicChorderImpl.generate(p0,op.DiatonicChorderImpl.triadNames(p0))"}, "triads are not generated from the triad name table"}}},
 	{"op", "DiatonicChorderImpl.Sevenths", []wireFact{{"names", []string{"call op.DiatonicChorderImpl.generate(p0,op.DiatonicChorderImpl.seventhNames(p0))"}, "sevenths are not generated from the seventh name table"}}},
 	// ---- midix controller
-	{"midix", "(*TrackSetController).Add", []wireFact{
-		{"route", []string{"call midix.(*TrackSet).Add(p0.set,midix.TrackNoSelector.Select(p0.selector,p1.Type),p1)"}, "an op is not delivered to the track its own type selects"},
+	{"midix", "TrackSetController.Add", []wireFact{
+		{"route", []string{"call midix.TrackSet.Add(p0.set,midix.TrackNoSelector.Select(p0.selector,p1.Type),p1)"}, "an op is not delivered to the track its own type selects"},
 	}},
 	{"midix", "NewTrackOp", []wireFact{
 		{"delta", []string{".TickDelta <- p0"}, "the op does not carry the given delta"},
@@ -253,11 +253,11 @@ func ruleWire(c *Ctx) {
 		case "cmd.infoCmdAttrDescribe.RunE":
 			facts := c.facts(f)
 			c.site(1)
-			c.check(hasFact(facts, "call desc.Attribute.Describe(", "pflag.(*FlagSet).GetString(", "\"target\"", "cmd.getRootNote(p0)#0,cmd.getPrecedeSharpFlag(p0))"), a+"|describe", c.pos(f.Pos()), a, "-t, -r and -s reach Attribute.Describe", a+": the attribute name (-t), the root (-r) and the sharp preference (-s) are not passed to Describe in that order")
+			c.check(hasFact(facts, "call desc.Attribute.Describe(", "pflag.FlagSet.GetString(", "\"target\"", "cmd.getRootNote(p0)#0,github.com/spf13/pflag.FlagSet.GetBool(github.com/spf13/cobra.Command.Flags(p0),\"precedeSharp\")#0)"), a+"|describe", c.pos(f.Pos()), a, "-t, -r and -s reach Attribute.Describe", a+": the attribute name (-t), the root (-r) and the sharp preference (-s) are not passed to Describe in that order")
 		case "cmd.infoCmdChordDescribe.RunE":
 			facts := c.facts(f)
 			c.site(1)
-			c.check(hasFact(facts, "call desc.Chord.Describe(", "cmd.getPrecedeSharpFlag(p0))"), a+"|describe", c.pos(f.Pos()), a, "symbol, root and -s reach Chord.Describe", a+": the parsed symbol, the root note and the sharp preference (-s) are not passed to Describe")
+			c.check(hasFact(facts, "call desc.Chord.Describe(", "github.com/spf13/pflag.FlagSet.GetBool(github.com/spf13/cobra.Command.Flags(p0),\"precedeSharp\")#0)"), a+"|describe", c.pos(f.Pos()), a, "symbol, root and -s reach Chord.Describe", a+": the parsed symbol, the root note and the sharp preference (-s) are not passed to Describe")
 			c.check(hasFact(facts, "call note.ParseNote(") && hasFact(facts, "call input/ast.AccidentalValue("), a+"|root", c.pos(f.Pos()), a, "root = written letter + accidental", a+": the root is not parsed from the written letter and accidental")
 		case "cmd.textCmdConvSyllable.RunE":
 			facts := c.facts(f)
